@@ -478,7 +478,7 @@ func c12Rules(c *Ctx, r1, r2, r3, r4, r5 string) {
 					return ""
 				}
 				d := st.Desc(sel.States[kk].Chan)
-				if p, isP := sel.States[kk].Chan.(*ssa.Parameter); isP {
+				if p, isP := sel.States[kk].Chan.(*ssa.Parameter); isP && p.Parent() == loop {
 					// a channel the go statement hands to the loop
 					d = Desc(roles.loopArg(p))
 				}
